@@ -1,6 +1,6 @@
 ------------------------------ MODULE FileCache ------------------------------
 (* The engine entry point (C20): file resolution and result classification.
-   A configuration is a workflow tree on disk (nesting depth of loop steps, optionally a sub-workflow shared by two
+   A configuration is a workflow tree on disk (nesting depth of loop steps, the directories the nested files live in, optionally a sub-workflow shared by two
    parents), the output the scripted steps make producible, whether the workflow carries an explicit output schema
    (with either error flag) and how the caller names the context directory (absolute or relative) and from which
    working directory.  The specification of the API is independent of everything but the file contents:
@@ -14,19 +14,26 @@ Outs == {"success", "error", "other"}
 Explicit == {"none", "flag_true", "flag_false"}
 DirModes == {"abs", "rel"}
 Cwds == {"ctx", "parent", "elsewhere"}
-Configs == [depth : Depths, shared : BOOLEAN, out : Outs, explicit : Explicit, dir : DirModes, cwd : Cwds]
+\* where the nested files live: first letter = the depth-2 file, second = the depth-3 file; r = context root, s = sub/.
+\* Every reference, whichever file contains it, is written relative to the context directory.
+Layouts == {"rr", "rs", "sr", "ss"}
+LayoutsOf(d) == IF d = 1 THEN {"rr"} ELSE IF d = 2 THEN {"rr", "sr"} ELSE Layouts
+Configs == {c \in [depth : Depths, layout : Layouts, shared : BOOLEAN, out : Outs, explicit : Explicit, dir : DirModes, cwd : Cwds] :
+              c.layout \in LayoutsOf(c.depth)}
+L2(c) == IF c.layout \in {"sr", "ss"} THEN "sub/l2.yaml" ELSE "l2.yaml"
+L3(c) == IF c.layout \in {"rs", "ss"} THEN "sub/l3.yaml" ELSE "l3.yaml"
 ErrorFlag(c) == IF c.explicit = "none" THEN c.out = "error" ELSE c.explicit = "flag_true"
 ExpectedId(c) == c.out
 \* a relative context directory is resolved against the caller's working directory, so it only names the context
 \* directory when the caller stands where the path is relative to; the harness passes a path relative to cwd.
-FilesNeeded(c) == {"workflow.yaml"} \cup (IF c.depth >= 2 THEN {"l2.yaml"} ELSE {}) \cup (IF c.depth >= 3 THEN {"sub/l3.yaml"} ELSE {})
+FilesNeeded(c) == {"workflow.yaml"} \cup (IF c.depth >= 2 THEN {L2(c)} ELSE {}) \cup (IF c.depth >= 3 THEN {L3(c)} ELSE {})
                   \cup (IF c.shared THEN {"shared.yaml"} ELSE {})
 \* CLI exit codes (cmd/arcaflow/main.go)
 ExitCode(parseOK, runErr, flag) == IF ~parseOK THEN 1 ELSE IF runErr THEN 3 ELSE IF flag THEN 2 ELSE 0
 VARIABLE todo
 Init == todo = Configs
 Next == todo # {} /\ LET c == CHOOSE x \in todo : TRUE IN
-          /\ PrintT(<<"CONFIG", ToJson([c |-> c, id |-> ExpectedId(c), flag |-> ErrorFlag(c), exit |-> ExitCode(TRUE, FALSE, ErrorFlag(c))])>>)
+          /\ PrintT(<<"CONFIG", ToJson([c |-> c, l2 |-> L2(c), l3 |-> L3(c), id |-> ExpectedId(c), flag |-> ErrorFlag(c), exit |-> ExitCode(TRUE, FALSE, ErrorFlag(c))])>>)
           /\ todo' = todo \ {c}
 Spec == Init /\ [][Next]_todo
 \* the expectation does not depend on how the caller names the directory, where it stands, or on nesting
